@@ -143,7 +143,8 @@ def check_sum(case):
             a = arith.resolve_operands(host, case['a'])
             b = arith.resolve_operands(host, case['b'])
             hs = case.get('hand', 'list')
-            arg_a, arg_b = arith.hand(a, hs), arith.hand(b, hs)
+            fn2 = ar.add_sum_two_numbers if kind == 'add_two_numbers' else ar.add_sum_two_numbers_with_shift
+            arg_a, arg_b = arith.hand(a, hs, fn2), arith.hand(b, hs, fn2)
             cls.add('hand:' + hs)
             alias = case.get('alias')
             if alias == 'same_object':
@@ -192,16 +193,16 @@ def check_sum(case):
                     case = dict(case, weights=(case['weights'] * (len(ops) // max(1, len(case['weights'])) + 1))[:len(ops)])
         n = len(ops)
 
-        def given():
-            return arg_ops if arg_ops is not None else arith.hand(ops, case.get('hand', 'list'))
+        def given(fn=None):
+            return arg_ops if arg_ops is not None else arith.hand(ops, case.get('hand', 'list'), fn)
 
         if kind == 'add_sum_n_bits':
-            ret = ar.add_sum_n_bits(c, given(), basis=basis, big_endian=be)
+            ret = ar.add_sum_n_bits(c, given(ar.add_sum_n_bits), basis=basis, big_endian=be)
             pairs = list(enumerate(ret[::-1] if be else ret))
             weights = [0] * n
             ops_eff = ops
         elif kind == 'add_sum_n_bits_easy':
-            ret = ar.add_sum_n_bits_easy(c, given(), big_endian=be)
+            ret = ar.add_sum_n_bits_easy(c, given(ar.add_sum_n_bits_easy), big_endian=be)
             pairs = list(enumerate(ret[::-1] if be else ret))
             weights = [0] * n
             basis_name = 'XAIG'
@@ -213,7 +214,7 @@ def check_sum(case):
             if len({lv for lv, _ in pairs}) != len(pairs):
                 raise Violation('levels_not_distinct', f'{kind}: levels {[lv for lv, _ in pairs]}')
         else:  # add_pow2_m1
-            ret = ar.add_sum_pow2_m1(c, given(), big_endian=be, basis=basis)
+            ret = ar.add_sum_pow2_m1(c, given(ar.add_sum_pow2_m1), big_endian=be, basis=basis)
             pairs = [(k, lab) for k, group in enumerate(ret) for lab in group]
             weights = [0] * n
         res, t, fresh = arith.host_discipline(host, before, c, t0, pats, mask)
